@@ -183,8 +183,8 @@ def build(thorough):
         for mode in (["close", "rst"] if thorough else ["close"]):
             scs.append(flap_scenario("flap-%s-%d-%d" % (mode, ivl, mx), ivl, mx, mode))
         scs.append(dead_scenario("dead-%d-%d" % (ivl, mx), ivl, mx))
-    scs.append(dead_scenario("dead-churn-300-0", 300, 0, churn=True))
-    scs.append(dead_scenario("dead-churn-100-400", 100, 400, churn=True))
+    scs.append(dead_scenario("deadchurn-300-0", 300, 0, churn=True))
+    scs.append(dead_scenario("deadchurn-100-400", 100, 400, churn=True))
     for (tr, ivl, mx, down) in ([("tcp", 50, 200, 700), ("tcp", 100, 0, 400), ("ipc", 50, 200, 700)] if thorough else [("tcp", 50, 200, 700)]):
         scs.append(comeback_scenario("comeback-%s-%d-%d" % (tr, ivl, mx), tr, ivl, mx, down))
     return scs
